@@ -238,6 +238,9 @@ static void _GD_Delete(DIRFILE *restrict D, gd_entry_t *restrict E,
 
   if ((D->flags & GD_ACCMODE) != GD_RDWR)
     _GD_SetError(D, GD_E_ACCMODE, 0, NULL, 0, NULL);
+  else if (E->field_type == GD_INDEX_ENTRY)
+    /* the implicit INDEX field can't be removed, renamed or moved */
+    _GD_SetError(D, GD_E_BAD_FIELD_TYPE, GD_E_FIELD_BAD, NULL, 0, "INDEX");
   else if (D->fragment[E->fragment_index].protection & GD_PROTECT_FORMAT)
     _GD_SetError(D, GD_E_PROTECTED, GD_E_PROTECTED_FORMAT, NULL, 0,
         D->fragment[E->fragment_index].cname);
